@@ -69,7 +69,7 @@ func shapeModel(shape string, ids []string) []string {
 	var out []string
 	for _, id := range ids {
 		switch shape {
-		case "identity":
+		case "identity", "setnested":
 			out = append(out, id)
 		case "dropeven":
 			if idNum(id)%2 == 1 {
@@ -85,6 +85,8 @@ func shapeModel(shape string, ids []string) []string {
 }
 
 var jsShapes = map[string]string{
+	// writes a property whose value is an array of arrays of whole numbers (goja hands them over as int64)
+	"setnested": `function transform_entities(entities) { for (e of entities) { e["Properties"]["nested"] = [[1, 2], [3], []]; e["Properties"]["flat"] = [4, 5]; e["Properties"]["n"] = 7; } return entities; }`,
 	// a "create entities" transform: appends one derived entity per input entity to the array it was given and returns it
 	"pushderived": `function transform_entities(entities) { var n = entities.length; for (var i = 0; i < n; i++) { var e = entities[i]; var d = NewEntity(); SetId(d, GetId(e).replace(":e", ":d")); d["Properties"]["from"] = GetId(e); entities.push(d); } return entities; }`,
 	"identity": `function transform_entities(entities) { return entities; }`,
@@ -317,7 +319,7 @@ func init() {
 		if !r.Quick() {
 			jsN, jsB, jsP = 12, 7, 6
 		}
-		for _, shape := range []string{"identity", "dropeven", "pushderived"} {
+		for _, shape := range []string{"identity", "dropeven", "pushderived", "setnested"} {
 			for n := 0; n <= jsN; n++ {
 				for b := 1; b <= jsB; b++ {
 					for p := 1; p <= jsP; p++ {
